@@ -29,7 +29,7 @@ ASSUMPTIONS = [
     "lines whose fragments the sampler cannot instantiate are skipped and counted (skipped_unsampled)",
 ]
 EXHAUSTIVE = {"quick": True, "thorough": True}
-FLOORS = {"quick": {"A_matches": 5000, "A_reverse": 2000, "B_rules": 150, "B_ignore_rules": 100, "B_ignore_case_rules": 100, "C_lines": 1500, "C_rows": 10000, "B_inline_flag_rules": 400, "B_nested_ignore_rules": 200, "B_governing_rule_lookups": 8000, "B_implicit_completions": 60, "B_inline_flag_diffs": 30, "B_texts_loaded_through_the_provider": 9},
+FLOORS = {"quick": {"A_matches": 5000, "A_reverse": 2000, "B_rules": 150, "B_ignore_rules": 100, "B_ignore_case_rules": 100, "C_lines": 1500, "C_rows": 10000, "B_inline_flag_rules": 400, "B_nested_ignore_rules": 200, "B_governing_rule_lookups": 8000, "B_implicit_completions": 60, "B_inline_flag_diffs": 30, "B_inline_flag_negated_forms": 200, "B_texts_loaded_through_the_provider": 9},
           "thorough": {"A_matches": 5000, "A_reverse": 2000, "B_rules": 150, "B_ignore_rules": 100, "B_ignore_case_rules": 100, "C_lines": 1500, "C_rows": 10000}}
 PREFIXES = ["undo", "no", "delete", "remove", "-"]
 VENDOR_BY_PREFIX = {"undo": "huawei", "no": "cisco", "delete": "juniper", "remove": "routeros", "-": "pc"}
@@ -352,6 +352,24 @@ def run_B(spec, acc):
                         if got != e:
                             acc.violation("C07/B/inline-ignore-case-flag/%s" % kind, "a rule written with the inline (?i) flag does not recognise its rows independently of letter case in the %s compiler" % kind,
                                           {"pattern": line, "row": r2, "vendor": vendor, "expected_key": e, "got_key": got})
+        # ... the negated form of such a rule (ACL and ordering rules carry one) recognises the negated rows in any letter case too
+        for line, refpat in itexts.items():
+            q0 = refpat[len("(?i)"):]
+            if q0.split()[0] == prefix:
+                continue
+            for kind in ("acl", "ordering"):
+                rule = icomp5.get(kind, {}).get(line)
+                if rule is None:
+                    continue
+                rx2 = rule["attrs"]["reverse_regexp"]
+                acc.count("B_inline_flag_negated_forms")
+                for r in probe_rows[:40] + ["a b c a", "a b c", "b a c", "c a b c x"]:
+                    for r2 in (prefix + " " + r, (prefix + " " + r).upper(), prefix + " " + r.title()):
+                        got = rx2.match(r2) is not None
+                        e = R.match("(?i)" + prefix + " " + q0, r2) is not None
+                        if got != e:
+                            acc.violation("C07/B/inline-ignore-case-flag/%s-negated-form" % kind, "the negated form of a rule written with the inline (?i) flag does not recognise its rows independently of letter case",
+                                          {"pattern": line, "row": r2, "vendor": vendor, "expected_match": e, "got_match": got})
         # ... and where the compiled rules are applied to configuration lines: the rule that governs a line in a patching rulebook is the first
         # one whose pattern matches it (case-insensitively for %ignore_case rules), with the key its placeholders bind
         from annet.annlib.patching import _match_row_to_rules
